@@ -1048,3 +1048,94 @@ func VerifHarness_C05_LabelLists() {
 	vsymAssert(got == mod, "label lists: the matching modifier's lists are the ones its text denotes")
 	vsymReach("C05_label_lists")
 }
+
+// F8 numeric literals through the real lexer and parser: durations (range,
+// offset, label filter), byte sizes and numbers (label filters) are accepted
+// in every documented spelling and denote the value the text says.
+var vDurations = []struct {
+	text string
+	d    time.Duration
+}{
+	{"5m", 5 * time.Minute}, {"1h30m", 90 * time.Minute}, {"90s", 90 * time.Second}, {"500ms", 500 * time.Millisecond},
+	{"1d", 24 * time.Hour}, {"2w", 14 * 24 * time.Hour}, {"1.5h", 90 * time.Minute}, {"1m30s500ms", 90*time.Second + 500*time.Millisecond},
+	{"10us", 10 * time.Microsecond}, {"1µs", time.Microsecond}, {"5ns", 5}, {"1d12h", 36 * time.Hour}, {"1w2d", 9 * 24 * time.Hour},
+	{"00005m", 5 * time.Minute}, {"1y", 365 * 24 * time.Hour}, {"1y2w", (365 + 14) * 24 * time.Hour},
+}
+
+var vByteSizes = []struct {
+	text string
+	n    uint64
+}{
+	{"5B", 5}, {"5b", 5}, {"10KiB", 10 << 10}, {"3kb", 3000}, {"1MB", 1e6}, {"1.5MiB", 3 << 19}, {"1.5GB", 15e8}, {"1Gi", 1 << 30},
+	{"2Ki", 2 << 10}, {"7k", 7000}, {"1g", 1e9}, {"1TB", 1e12}, {"1TiB", 1 << 40},
+	{"1PB", 1e15}, {"1PiB", 1 << 50}, {"2EB", 2e18}, {"1EiB", 1 << 60},
+}
+
+func VerifHarness_C05_NumericLiterals() {
+	switch vsymChoice("kind", 3) {
+	case 0:
+		d := vDurations[vsymChoice("duration", len(vDurations))]
+		year := d.text[0] == '1' && len(d.text) > 1 && d.text[1] == 'y'
+		var q string
+		ctx := vsymChoice("context", 3)
+		switch ctx {
+		case 0:
+			q = `count_over_time({a="b"}[` + d.text + `])`
+		case 1:
+			q = `count_over_time({a="b"}[1m] offset ` + d.text + `)`
+		default:
+			q = `{a="b"} | x > ` + d.text
+		}
+		e, err := Parse(q, ParseOptions{})
+		if year && err != nil {
+			vsymFinding("F19", true, "a duration with the unit `y` (years, e.g. [1y]) is rejected by the lexer: `y` is scanned as part of a duration but missing from the unit table")
+			return
+		}
+		vsymAssert(err == nil, "numeric literals: a duration in a documented spelling is accepted")
+		switch ctx {
+		case 0:
+			r, ok := e.(*RangeAggregationExpr)
+			vsymAssert(ok && r.Range.Range == d.d, "numeric literals: the range is the duration the text denotes")
+		case 1:
+			r, ok := e.(*RangeAggregationExpr)
+			vsymAssert(ok && r.Range.Offset != nil && r.Range.Offset.Duration == d.d, "numeric literals: the offset is the duration the text denotes")
+		default:
+			l, ok := e.(*LogExpr)
+			vsymAssert(ok && len(l.Pipeline) == 1, "numeric literals: one label filter")
+			lf, ok := l.Pipeline[0].(*LabelFilter)
+			vsymAssert(ok, "numeric literals: a label filter stage")
+			df, ok := lf.Pred.(*DurationFilter)
+			vsymAssert(ok && df.Label == "x" && df.Op == OpGt && df.Value == d.d, "numeric literals: a duration comparison with the value the text denotes")
+		}
+	case 1:
+		b := vByteSizes[vsymChoice("bytes", len(vByteSizes))]
+		e, err := Parse(`{a="b"} | x > `+b.text, ParseOptions{})
+		big := b.n >= 1e15 // peta and exa
+		if big && err != nil {
+			vsymFinding("F20", true, "byte sizes in peta and exa units with an integer mantissa (1PB, 1PiB, 2EB, 1EiB) are rejected: text/scanner reads the P or E as the start of an exponent")
+			return
+		}
+		vsymAssert(err == nil, "numeric literals: a byte size in a documented spelling is accepted")
+		l, ok := e.(*LogExpr)
+		vsymAssert(ok && len(l.Pipeline) == 1, "numeric literals: one label filter")
+		lf, ok := l.Pipeline[0].(*LabelFilter)
+		vsymAssert(ok, "numeric literals: a label filter stage")
+		bf, ok := lf.Pred.(*BytesFilter)
+		vsymAssert(ok && bf.Label == "x" && bf.Op == OpGt && bf.Value == b.n, "numeric literals: a size comparison with the value the text denotes")
+	default:
+		nums := []struct {
+			text string
+			f    float64
+		}{{"5", 5}, {"1e3", 1000}, {"1.5", 1.5}, {"0.25", 0.25}, {"100", 100}, {"0", 0}, {"1E2", 100}, {"2.5e-1", 0.25}}
+		n := nums[vsymChoice("number", len(nums))]
+		e, err := Parse(`{a="b"} | x >= `+n.text, ParseOptions{})
+		vsymAssert(err == nil, "numeric literals: a number is accepted")
+		l, ok := e.(*LogExpr)
+		vsymAssert(ok && len(l.Pipeline) == 1, "numeric literals: one label filter")
+		lf, ok := l.Pipeline[0].(*LabelFilter)
+		vsymAssert(ok, "numeric literals: a label filter stage")
+		nf, ok := lf.Pred.(*NumberFilter)
+		vsymAssert(ok && nf.Label == "x" && nf.Op == OpGte && nf.Value == n.f, "numeric literals: a number comparison with the value the text denotes")
+	}
+	vsymReach("C05_numeric_literals")
+}
